@@ -15,7 +15,7 @@ func init() {
 		id: "C03",
 		li: levelInfo{
 			Level:       "other",
-			Explanation: "Static necessary conditions of single-server equivalence on a stable cluster. R1 (routing-key agreement): at every call of MakeRequest(key, req) the key is Array[p].Text of the body of the very request that is passed, with p the key position of that handler kind (1 for simple, sum-result and split children, 3 for EVAL); every name routed by a generic handler has first-key position 1 in the Redis <= 5.0 reference. R2: split/assemble agreement (shared with C01.R3). R3 (who-may-write): the only functions that write into an existing RESP value (its fields, its array elements or the bytes of its text) are the compression filter and the SCAN cursor rewrite - nothing else can alter relayed bytes. R4 (routing-table fill): CLUSTER NODES fields are read at positions 0 / 1 / 3 / 8+, only master lines receive slots, replicas are removed from the returned map, slot ranges are expanded inclusively, a refresh rewrites every listed slot with the parsed instance under the range guard and nothing else writes the table. R5: no alias of the read buffer escapes (shared with C10.R2). R6 (owner first): the key->slot function equals the Redis Cluster specification - the C12 obligations (CRC table and step by GF(2)-affine interpretation, fold order, hash-tag decision tree over the four orderings, routing index crc16(hashtag(key))&16383) are re-evaluated here. R7 (pipeline order): a request stays on the goroutine that read it until it is enqueued on a backend queue - no go statement carries a request into code that can enqueue it. Reply equivalence for all programs is value-level and is not decided. R8 (shared with C11.R4): the decoder nesting counter is balanced on every path, so no sequence of replies makes a later one fail. R9 (shared with C10.R9): no RESP text is replaced by a copy made with an idiom that turns empty into nil or nil into empty (append(empty, t...), []byte(string(t)), make+copy) unless under a test of the source. R10 (shared with C04.R1): only error replies are classified as redirections. R11 (shared with C13.R12): the decompression hook is registered only with a compression section. R4 also forbids substring tests on columns of a CLUSTER NODES line.",
+			Explanation: "Static necessary conditions of single-server equivalence on a stable cluster. R1 (routing-key agreement): at every call of MakeRequest(key, req) the key is Array[p].Text of the body of the very request that is passed, with p the key position of that handler kind (1 for simple, sum-result and split children, 3 for EVAL); every name routed by a generic handler has first-key position 1 in the Redis <= 5.0 reference. R2: split/assemble agreement (shared with C01.R3). R3 (who-may-write): the only functions that write into an existing RESP value (its fields, its array elements or the bytes of its text) are the compression filter and the SCAN cursor rewrite - nothing else can alter relayed bytes. R4 (routing-table fill): CLUSTER NODES fields are read at positions 0 / 1 / 3 / 8+, only master lines receive slots, replicas are removed from the returned map, slot ranges are expanded inclusively, a refresh rewrites every listed slot with the parsed instance under the range guard and nothing else writes the table. R5: no alias of the read buffer escapes (shared with C10.R2). R6 (owner first): the key->slot function equals the Redis Cluster specification - the C12 obligations (CRC table and step by GF(2)-affine interpretation, fold order, hash-tag decision tree over the four orderings, routing index crc16(hashtag(key))&16383) are re-evaluated here. R7 (pipeline order): a request stays on the goroutine that read it until it is enqueued on a backend queue - no go statement carries a request into code that can enqueue it. Reply equivalence for all programs is value-level and is not decided. R8 (shared with C11.R4): the decoder nesting counter is balanced on every path, so no sequence of replies makes a later one fail. R9 (shared with C10.R9): no RESP text is replaced by a copy made with an idiom that turns empty into nil or nil into empty (append(empty, t...), []byte(string(t)), make+copy) unless under a test of the source. R10 (shared with C04.R1): only error replies are classified as redirections. R11 (shared with C13.R12): the decompression hook is registered only with a compression section. R4 also forbids substring tests on columns of a CLUSTER NODES line. R4 also: the parser rejects a whole view only for a short line, an address without host:port shape, or an error of a callee.",
 			Assumptions: []string{"Redis <= 5.0 command table and CLUSTER NODES line format embedded as references"},
 			TrustedBase: []string{"go/ssa", "VTA call graph", "embedded references"},
 		},
